@@ -30,6 +30,13 @@
       `__init__` is analysed the same way whatever its bases are spelled like (Enum / NamedTuple
       heuristics included), the FileIr maps the class symbol to `FnA.analyse` of that body, and
       neither the static methods analysed afterwards nor the merge into the FileIr overwrite it;
+    * `tieA_functionAnalyser_visitors` / `tieA_no_match_visitor`, `C01_match_*`: no node class of a
+      `match` statement has a visitor, so a pattern is visited as the list of the expressions it
+      evaluates (`Match.loads`) whatever capture / `as` / star / or / sequence / mapping / class
+      structure is wrapped around them; a syntactically valid pattern always succeeds, adds EXACTLY
+      the accesses of its loads and leaves the context alone (captures are not registered); a whole
+      `match` statement in the fragment has every access of its subject, pattern loads, guards and
+      bodies reported;
   Not proved: the lower bound over a fragment that also contains calls, assignments, loops, …
   (`C01_partial` of DESIGN §5 with the complete `dropped` table); the per-constructor facts
   above are its leaves.
@@ -39,6 +46,8 @@ import RattrProofs.Lemmas.VisitSpec
 import RattrProofs.Lemmas.VisitCover
 import RattrProofs.Lemmas.FileAnalyser
 import RattrProofs.Lemmas.C01Callables
+import RattrProofs.Lemmas.Match
+import RattrModel.Generated.C01
 
 namespace Rattr.C01
 open Rattr Rattr.FnA Rattr.Strs Rattr.AccessSpec
@@ -795,5 +804,127 @@ theorem C01_test_planet :
 
 /-- `C01_initialiser_any_bases` applies to `Planet`. -/
 example : initsOf (planetBody true) ≠ [] := by decide
+
+end Rattr.C01
+
+/-! ## `match` statements (RattrModel/Match.lean): ten node classes, no visitor, one traversal -/
+
+namespace Rattr.C01
+open Rattr Rattr.FnA Rattr.Strs Rattr.AccessSpec Rattr.Match
+
+/-- Tie A: the `visit_*` attributes of the real `FunctionAnalyser` are exactly the ones the model has a
+case (or helper) for — a visitor added upstream breaks this obligation before any input is tried. -/
+theorem tieA_functionAnalyser_visitors :
+    FileA.sameMembers Generated.C01.functionAnalyserVisitors Match.dedicatedVisitors = true := by decide
+
+/-- Tie A: none of `Match`, `match_case`, `MatchValue`, `MatchSingleton`, `MatchSequence`, `MatchMapping`,
+`MatchClass`, `MatchStar`, `MatchAs`, `MatchOr` has a visitor: all of them are `generic_visit`ed. -/
+theorem tieA_no_match_visitor :
+    Match.kinds.all (fun k => !Generated.C01.functionAnalyserVisitors.contains (Match.visitorOf k)) = true := by
+  decide
+
+/-- a pattern — ANY pattern, nested to any depth — is visited as the list of the expressions it
+evaluates, in source order: nothing a capture, `as`, star, or-, sequence, mapping or class pattern
+wraps is skipped, and nothing else happens. -/
+theorem C01_match_pattern_is_its_loads (env : Env) (mn : Str) (p : Pat) (s : St) :
+    visit env mn (Match.node p) s = visitList env mn (Match.loads p) s := visit_node env mn p s
+
+/-- `p as name` is visited exactly like `p`. -/
+theorem C01_match_as_transparent (env : Env) (mn : Str) (p : Pat) (name : Option Str) (s : St) :
+    visit env mn (Match.node (.as_ [p] name)) s = visit env mn (Match.node p) s := by
+  rw [visit_node, visit_node, loads_as]
+
+/-- `match subject: cases`: the subject, then per case the pattern's loads, the guard, the body. -/
+theorem C01_match_stmt_each (env : Env) (mn : Str) (subject : Node) (cs : List MatchCase) (s : St) :
+    visit env mn (Match.stmt subject cs) s =
+      (visit env mn subject s >>>= fun s₁ => visitList env mn (Match.casesParts cs) s₁) :=
+  visit_stmt env mn subject cs s
+
+/-- the access spec sees a `match` statement the same way. -/
+theorem C01_match_spec (subject : Node) (cs : List MatchCase) :
+    accesses false (Match.stmt subject cs) = accesses false subject ++ accessesL (Match.casesParts cs) :=
+  accesses_stmt subject cs
+
+/-- a pattern whose evaluated expressions are dotted names / literals (`simple`: what the grammar of
+value patterns, class patterns and mapping keys admits — the harness checks this for every generated
+pattern): visiting it SUCCEEDS from every state and adds EXACTLY the accesses of those expressions. -/
+theorem C01_match_pattern_exact (env : Env) (mn : Str) (p : Pat) (hp : simpleL (Match.loads p) = true) (s : St) :
+    ∃ s', visit env mn (Match.node p) s = .ok s' ∧ Grows (accessesL (Match.loads p)) s s' := by
+  obtain ⟨s', h, g⟩ := visit_simple env mn (Match.node p) (by rw [simple_node]; exact hp) s
+  exact ⟨s', h, by rw [← accesses_node]; exact g⟩
+
+/-- … and leaves the context as it was: the names in `Match.captures p` are NOT registered (their uses
+in the guard / body are then diagnosed "potentially undefined": `C01_test_match_route`). -/
+theorem C01_match_captures_not_registered (env : Env) (mn : Str) (p : Pat)
+    (hp : simpleL (Match.loads p) = true) (s s' : St) (h : visit env mn (Match.node p) s = .ok s') :
+    s'.ctx = s.ctx ∧ s'.calls = s.calls := by
+  obtain ⟨t, ht, g⟩ := C01_match_pattern_exact env mn p hp s
+  rw [h] at ht
+  cases ht
+  exact ⟨g.ctx, g.calls⟩
+
+/-- a `match` statement whose subject, pattern loads, guards and bodies lie in the fragment of
+`C01_partial_flow`: given success, every access of the subject, of every expression a pattern
+evaluates (under however many `as` / or / sequence / mapping / class patterns), of every guard and of
+every body statement is reported. -/
+theorem C01_match_covered (env : Env) (mn : Str) (D : List Str) (F : Feat) (hm : ModClean env mn)
+    (subject : Node) (cs : List MatchCase) (hs : frag D F subject = true)
+    (hc : fragL D F (Match.casesParts cs) = true) (s s' : St) (hI : Inv env mn D s)
+    (h : visit env mn (Match.stmt subject cs) s = .ok s') :
+    (∀ a ∈ accesses false subject, present a s' = true) ∧
+    ∀ c ∈ cs, (∀ e ∈ Match.loads c.pat, ∀ a ∈ accesses false e, present a s' = true) ∧
+              (∀ g ∈ c.guard, ∀ a ∈ accesses false g, present a s' = true) ∧
+              (∀ b ∈ c.body, ∀ a ∈ accesses false b, present a s' = true) := by
+  have hn : frag D F (Match.stmt subject cs) = true := by rw [frag_stmt, hs, hc]; rfl
+  have hcov := (C01_partial_visit env mn D F hm _ hn s s' hI h).2.1
+  rw [accesses_stmt] at hcov
+  refine ⟨fun a ha => hcov a (List.mem_append_left _ ha), fun c hcm => ?_⟩
+  have part : ∀ n ∈ Match.caseParts c, ∀ a ∈ accesses false n, present a s' = true := fun n hn a ha =>
+    hcov a (List.mem_append_right _ (mem_accessesL (mem_casesParts hcm hn) ha))
+  refine ⟨fun e he => part e ?_, fun g hg => part g ?_, fun b hb => part b ?_⟩
+  · exact List.mem_append_left _ he
+  · exact List.mem_append_right _ (List.mem_append_left _ hg)
+  · exact List.mem_append_right _ (List.mem_append_right _ hb)
+
+/-- the seeded change C01-m7's witness:
+`match cmd.kind:
+   case cfg.START as k: return k.n
+   case (cfg.STOP | cfg.PAUSE) as k: return k
+   case cfg.Point(x=0, y=[first, *rest]) as p if cfg.enabled: return p.q, first, rest
+   case {cfg.KEY: v, **others}: return v.z` -/
+def routeCases : List MatchCase :=
+  [⟨.as_ [.value (att (nm "cfg") "START")] (some (S "k")), [], [.ret [att (nm "k") "n"]]⟩,
+   ⟨.as_ [.or_ [.value (att (nm "cfg") "STOP"), .value (att (nm "cfg") "PAUSE")]] (some (S "k")), [], [.ret [nm "k"]]⟩,
+   ⟨.as_ [.cls (att (nm "cfg") "Point") [] [S "x", S "y"]
+       [.value .const, .sequence [.as_ [] (some (S "first")), .star (some (S "rest"))]]] (some (S "p")),
+     [att (nm "cfg") "enabled"],
+     [.ret [.seq (S "Tuple") [att (nm "p") "q", nm "first", nm "rest"] .load]]⟩,
+   ⟨.mapping [att (nm "cfg") "KEY"] [.as_ [] (some (S "v"))] (some (S "others")), [], [.ret [att (nm "v") "z"]]⟩]
+
+def bodyRoute : List Node := [Match.stmt (att (nm "cmd") "kind") routeCases]
+
+def undefinedOf : Res → List Str
+  | .ok s => (s.diags.filter (fun d => d.tmpl == S "undefined")).map (·.arg)
+  | _ => []
+
+/-- TEST (kernel evaluation): every load under every `as` is reported; the captured names are not in
+the context (each first use is diagnosed); the statement is in the full fragment and the spec's 13
+accesses are all present. -/
+theorem C01_test_match_route :
+    getsOf (run ["cmd", "cfg"] bodyRoute) =
+      some [S "cmd.kind", S "cfg.START", S "k.n", S "cfg.STOP", S "cfg.PAUSE", S "k", S "cfg.Point", S "cfg.enabled",
+            S "p.q", S "first", S "rest", S "cfg.KEY", S "v.z"] ∧
+    undefinedOf (run ["cmd", "cfg"] bodyRoute) = [S "k", S "k", S "p", S "first", S "rest", S "v"] ∧
+    (routeCases.map (fun c => Match.captures c.pat)) =
+      [[S "k"], [S "k"], [S "first", S "rest", S "p"], [S "v", S "others"]] ∧
+    fragL (dirtyKeys env0 (S "m") root1) ⟨true, true, true⟩ bodyRoute = true ∧
+    (accessesL bodyRoute).length = 13 ∧
+    (accessesL bodyRoute).all (fun a => presentR a (run ["cmd", "cfg"] bodyRoute)) = true := by decide +kernel
+
+/-- `C01_match_pattern_exact` / `_captures_not_registered` apply to every pattern of `routeCases`;
+`C01_match_covered`'s hypotheses hold for the statement (success: `C01_test_match_route`). -/
+example : routeCases.all (fun c => simpleL (Match.loads c.pat)) = true ∧
+    frag (dirtyKeys env0 (S "m") root1) ⟨true, true, true⟩ (att (nm "cmd") "kind") = true ∧
+    fragL (dirtyKeys env0 (S "m") root1) ⟨true, true, true⟩ (Match.casesParts routeCases) = true := by decide +kernel
 
 end Rattr.C01
